@@ -292,10 +292,27 @@ class History:
             def __len__(self):
                 return 0
 
+        class _Awaitable:
+            "an awaitable that is no coroutine object (what a plain function handing on a future / task / wrapper returns)"
+
+            def __init__(self, coro):
+                self.coro = coro
+
+            def __await__(self):
+                return self.coro.__await__()
+
+        class SyncHDS(HDS):
+            "a dataset whose executor is a plain function returning an awaitable"
+
+            def execute_result_async(self, a, title=None):
+                return _Awaitable(HDS.execute_result_async(self, a, title))
+
         self.HDS = HDS
         for i in range(n_datasets):
             k = rnd.random()
-            cls = EmptyHDS if rnd.random() < 0.3 else HDS
+            cls = EmptyHDS if rnd.random() < 0.3 else (SyncHDS if rnd.random() < 0.3 else HDS)
+            if cls is SyncHDS:
+                self.mode_counts["plain-function-executors-returning-awaitables"] = self.mode_counts.get("plain-function-executors-returning-awaitables", 0) + 1
             if cls is EmptyHDS:
                 self.mode_counts["falsy-dataset-objects"] = self.mode_counts.get("falsy-dataset-objects", 0) + 1
             if k < typed_share * 0.7:
